@@ -113,6 +113,10 @@ def _rand_value(kind, rng):
     def mag():
         return round(10 ** rng.uniform(-1.0, 1.5), 3)
     if kind in ('c', 'cany'):
+        # a complex-valued input may be handed over as a Python float or int as well: the TYPE is part of the input space
+        u = rng.random()
+        if u < 0.25: return mag() * rng.choice((1, -1))
+        if u < 0.32: return rng.choice((1, 2, 3, 5, 10, 12)) * rng.choice((1, -1))
         return complex(mag() * rng.choice((1, -1)), mag() * rng.choice((1, -1)))
     if kind in ('r', 'rany'):
         return mag() * rng.choice((1, -1))
@@ -416,7 +420,7 @@ def concrete_residuals(obs, tol=1e-6):
 
 
 def run_symbolic(execute, cfg, mods, rounds=0, conj=False, symbolic_labels=False, facade=None,
-                 replay_tries=4, seed=0, max_paths=20000, on_exception=None, simplify=False):
+                 replay_tries=6, seed=0, max_paths=20000, on_exception=None, simplify=False):
     """explore all paths of execute(cfg, V) with the repository modules patched; discharge obligations;
     replay candidates on the unpatched code.
     returns dict(paths, obligations, discharged, queries, solver_s, violations, inconclusive, out_of_bound)"""
